@@ -39,7 +39,7 @@ BASES = {
     "Date": ["Tue, 15 Nov 1994 08:12:31 GMT", "Sunday, 06-Nov-94 08:49:37 GMT", "Fri, 31 Dec 9999 23:59:59 -0100", "Mon, 01 Jan 0001 00:00:00 +0100", "Fri, 31 Dec 9999 23:00:00 EST",
              "Tue, 15 Nov 1994 08:12:31 +2359", "Tue, 15 Nov 1994 08:12:31 -9999"],  # dates at the ends of the calendar with offsets that push them over
     "Referer": ["https://user:pw@example.com:8080/p?q=1#f", "http://[::1]:80/", "/relative"],
-    "Host": ["example.com", "example.com:8080", "[::1]:8000", "xn--bcher-kva.example.com", "xn--zzzzzz.example.com"],  # the last two: a valid and a malformed internationalised label
+    "Host": ["example.com", "example.com:8080", "example.com:80", "[::1]:8000", "xn--bcher-kva.example.com", "xn--zzzzzz.example.com"],  # the last two: a valid and a malformed internationalised label
     "Range": ["bytes=0-3", "bytes=0-1, 4-", "bytes=-2"],
     "If-Range": ['"etag"', "Tue, 15 Nov 1994 08:12:31 GMT"],
     "If-None-Match": ['"abc", W/"def"', "*"],
@@ -53,6 +53,7 @@ def edits(s, tier, kind="header"):
     for i in range(len(s)):
         yield s[:i] + s[i + 1:]
         yield s[:i]
+        yield s[i:]
         if s[i] in DELIMS:
             yield s[:i] + s[i] + s[i:]
     for i in range(len(s) + 1):
@@ -512,6 +513,7 @@ def shards(tier, seed):
     out.append(("special",))
     out += [("filehdr", name) for name in ("Range", "If-Range", "If-None-Match", "If-Modified-Since")]
     out += [("hostdispatch", k, 4) for k in range(4)]
+    out += [("overlap", label) for label in ("wsgi:oneobject", "asgi:oneobject", "zerocopy:oneobject")]
     return out
 
 
@@ -622,6 +624,22 @@ def run_shard(desc, tier):
             if len(body) > 3:
                 probe_body(r, ctype, body, accessor, chunks=[body[:1], body[1:len(body) // 2], b"", body[len(body) // 2:]])
         r.sample({"special": "5000-digit number, deep nesting, invalid UTF-8, 16 charsets, 11 boundary variants, headers without colon"})
+    elif kind == "overlap":
+        # what a client sends is also *when* it sends it: two requests with valid (and invalid) Range headers in flight at once
+        # on one file response object, every interleaving (C02's pair engine); here only one thing is asked: no request ends in
+        # an exception that is not an HTTP error
+        from . import c02
+        from baize.exceptions import HTTPException
+
+        def observer(w, reqs, results, how):
+            for q, res in zip(reqs, results):
+                if res.exc is not None and not isinstance(res.exc, HTTPException):
+                    r.violation(f"overlap:{type(res.exc).__name__}", {"kind": "overlap", "label": desc[1], "pair": w},
+                                f"{desc[1]}: request {q.method} {q.headers} while another one was in flight on the same FileResponse object ({how:.80}) raised {type(res.exc).__name__}: {res.exc!s:.100}")
+        rr = R()
+        c02.run_pairs(rr, desc[1], observer=observer)
+        r.c.update(rr.c)
+        r.sample({"overlap": desc[1], "requests": "no Range, single ranges, two ranges, unsatisfiable; GET and HEAD"})
     elif kind == "hostdispatch":
         # hostile Host values through the applications (redirects, host dispatch, mounted static files), not only the accessors
         _, k, n = desc
@@ -691,6 +709,8 @@ def replay(w):
             probe_body(r, w["ctype"], b, w["accessor"], chunks=[b[:1], b[1:len(b) // 2], b"", b[len(b) // 2:]])
     elif k == "vanished":
         vanished(r)
+    elif k == "overlap":
+        r = run_shard(("overlap", w["label"]), "quick")
     elif k == "sinks":
         protocol_only_sinks(r)
     elif k == "body-under-header":
